@@ -11,9 +11,11 @@ classical input, running the circuit on the basis state that holds the argument 
 other qubits zero) leaves on each output qubit exactly the value of the corresponding return
 expression.  Every return bit is mapped to a qubit, with and without final uncomputation.
 
-`C02_statement` below is the full property about the compiler model.  It is **false** for the
-model of the compiler as it is (the model reproduces the real compiler's wrong circuits gate
-for gate; see `known_findings.json`), so what is proved here is (partial):
+`C02_statement` below is the full property about the compiler model.  The model follows the
+compiler with the repairs of the uncomputation protocol (`docs/fixes/CC-*.diff`; before them the
+statement was false, see the `fixed` entries of `known_findings.json`).  No failing compilation is
+known for the repaired compiler, but `C02_statement` is not proved in general; what is proved here
+is (partial):
 
 * `validate_sound` – the per-instance validator used by the check is sound for *all* inputs:
   a compiled instance that passes it satisfies the property on every input basis state.  The
@@ -30,10 +32,15 @@ for gate; see `known_findings.json`), so what is proved here is (partial):
   return bit is mapped to a qubit"), `compile_inputs_first` (arguments on qubits `0..n-1`),
   `compile_bookkeeping`; with the corollaries `compile_remove_identities_preserves` and
   `compile_reverse_replay_undoes`.  They say nothing about the *values* on the qubits.
-* a **semantic fragment theorem** `C02_fragment_partial`: on the decidable class `inFragment` (one
-  definition `r = e`, `e` a Not/And/Or/Xor expression over the arguments in which no compound
-  sub-expression occurs twice) every successful run of `compile`, with and without final
-  uncomputation, for every admissible ancilla-choice sequence, is `Correct`.
+* a **semantic fragment theorem** `C02_fragment_partial` (ported to the repaired model): on the
+  decidable class `inFragment` (one definition `r = e`, `e` a Not/And/Or/Xor expression over the
+  arguments in which no compound sub-expression occurs twice) every successful run of `compile`,
+  with and without final uncomputation, for every admissible ancilla-choice sequence, is `Correct`.
+* the widened fragment theorems (ported to the repaired model, and stronger there): `C02_fragment_consts`
+  (one definition with constants), `C02_fragment_named_wide` / `C02_fragment_named` / `C02_fragment_multi`
+  (straight-line definition lists with named intermediates and several return bits, final uncomputation
+  **on or off**, `Or` of any arity over any arguments), `C02_free_zero_invariant` ("free ⇒ zero" is an
+  invariant of the statement loop for every return list and uncompute flag).
 -/
 namespace QV.C02
 open QV QV.Compiler
@@ -161,8 +168,9 @@ theorem compile_reverse_replay_undoes (inputs : List String) (defs : List (Strin
   runClassical_reverse_undo _ (fun g hg => (compile_gates_wellformed inputs defs ret unc cs s h g hg).2.1) st
 
 /-- **(2) left-hand sides stay mapped.**  Every left-hand symbol of the definition list that is
-not a scratch name (a temporary `__x`, whose name `map_qubit` deletes when the qubit is promoted
-under another name, or an ancilla-shaped name `anc_…`) is a key of the final `qubit_map`, and
+not a scratch name (an ancilla-shaped name `anc_…`, which `map_qubit` deletes when the ancilla it
+names is promoted under another name and `get_free_ancilla` may bind again; temporaries `__x` are
+names like any other since every named qubit is promoted) is a key of the final `qubit_map`, and
 the qubit it names exists. -/
 theorem compile_lhs_mapped (inputs : List String) (defs : List (String × BExp))
     (ret : Option (List String)) (unc : Bool) (cs : List Nat) (s : CState)
@@ -195,7 +203,7 @@ theorem compile_rets_mapped (inputs : List String) (defs : List (String × BExp)
   exact compile_lhs_mapped inputs defs (some rets) unc cs s h p hp hs
 
 /-- what the front end guarantees about the argument names: pairwise distinct, not reserved
-(`TRUE`, `FALSE`, `__…`, `anc_…`) and never re-bound by a definition -/
+(`TRUE`, `FALSE`, `anc_…`) and never re-bound by a definition -/
 def inputsFresh (inputs : List String) (defs : List (String × BExp)) : Bool :=
   decide inputs.Nodup && inputs.all fun n => !reservedName n && !(defs.map (·.1)).contains n
 
@@ -213,10 +221,11 @@ theorem compile_inputs_first (inputs : List String) (defs : List (String × BExp
   exact ⟨hlen, hpos hf.1 (fun n hn => hf.2 n hn)⟩
 
 /-- **(4) bookkeeping that holds**: every index stored in the ancilla set, the free set, the
-marked set and the `qubit_map` is a qubit of the circuit; the ancilla set is duplicate-free; a
-name mapped to a qubit that is still in the ancilla set is a scratch name (so no promoted
-left-hand side sits on an ancilla); no argument qubit (index below the number of inputs) is ever
-in the ancilla, free or marked set, so none is handed out as scratch space. -/
+marked set, the kept set (`kept_ancillas`) and the `qubit_map` is a qubit of the circuit; the
+ancilla set is duplicate-free; a name mapped to a qubit that is still in the ancilla set is a
+scratch name `anc_…` (so no left-hand side sits on an ancilla); no argument qubit (index below the
+number of inputs) is ever in the ancilla, free, marked or kept set, so none is handed out as
+scratch space. -/
 theorem compile_bookkeeping (inputs : List String) (defs : List (String × BExp))
     (ret : Option (List String)) (unc : Bool) (cs : List Nat) (s : CState)
     (h : (compile inputs defs ret unc).run { choices := cs } = .ok ((), s)) :
@@ -224,29 +233,37 @@ theorem compile_bookkeeping (inputs : List String) (defs : List (String × BExp)
     (∀ a ∈ s.qc.marked, a < s.qc.numQubits) ∧ (∀ p ∈ s.qc.qmap, p.2 < s.qc.numQubits) ∧
     s.qc.anc.Nodup ∧ (∀ p ∈ s.qc.qmap, p.2 ∈ s.qc.anc → scratchName p.1 = true) ∧
     (∀ a ∈ s.qc.anc, inputs.length ≤ a) ∧ (∀ a ∈ s.qc.free, inputs.length ≤ a) ∧
-    (∀ a ∈ s.qc.marked, inputs.length ≤ a) :=
+    (∀ a ∈ s.qc.marked, inputs.length ≤ a) ∧
+    (∀ a ∈ s.qc.kept, a < s.qc.numQubits) ∧ (∀ a ∈ s.qc.kept, inputs.length ≤ a) :=
   have hg := (compile_ok h).1
   have hs := (compile_ok h).2.2.2.2
-  ⟨hg.anc_lt, hg.free_lt, hg.marked_lt, hg.qmap_lt, hg.anc_nodup, hg.anc_named, hs.1, hs.2.1, hs.2.2⟩
+  ⟨hg.anc_lt, hg.free_lt, hg.marked_lt, hg.qmap_lt, hg.anc_nodup, hg.anc_named, hs.1, hs.2.1, hs.2.2.1,
+   hg.kept_lt, hs.2.2.2⟩
 
-/-- (4) bookkeeping that does **not** hold: `free ⊆ anc` fails – a temporary that was marked and
-uncomputed early (event `markNamedTemp`, finding `C02-temp-uncomputed-early`) and is promoted
-afterwards leaves the free set holding the qubit the return bit is mapped to -/
-theorem free_subset_anc_fails_witness :
+/-- regression witness of the repaired defect `C02-temp-uncomputed-early`: the program on which the
+unrepaired compiler left the free set holding the qubit the return bit is mapped to (the temporary
+`__t` stayed an ancilla, was marked by its first reader and uncomputed) now promotes `__t`; nothing is
+marked, freed or left in the ancilla set.  (`free ⊆ anc` is still not an invariant of the *model*:
+an `Xor` / `Or` without arguments – which sympy never builds – allocates an ancilla no gate targets;
+`uncompute` frees it without evicting its cache entry, a later definition that is that expression
+is then promoted out of the ancilla set while it sits in the free set.) -/
+theorem temp_promoted_witness :
     (match (compile ["a", "b"] [("__t", .xor [.sym "a", .sym "b"]),
         ("__u", .xor [.not (.sym "__t"), .sym "a"]), ("_ret", .sym "__t")] (some ["_ret"]) false).run
         { choices := [2, 3] } with
-      | .ok (_, s) => s.qc.anc == [3] && s.qc.free == [2] && dictGet? s.qc.qmap "_ret" == some 2
+      | .ok (_, s) => s.qc.anc == [] && s.qc.free == [] && s.qc.marked == [] &&
+          dictGet? s.qc.qmap "_ret" == some 2 && dictGet? s.qc.qmap "__t" == some 2
       | .error _ => false) = true := by decide +kernel
 
-/-- non-vacuity: a run of the model that uses an ancilla, promotes it and deletes a temporary
-name succeeds; its hypotheses `retsDefined` / `inputsFresh` hold -/
+/-- non-vacuity: a run of the model that uses two ancillas, promotes them (deleting their `anc_…`
+names) and keeps the first for the final `uncompute_all` succeeds; its hypotheses `retsDefined` /
+`inputsFresh` hold -/
 example : ∃ s, (compile ["a", "b"] [("__t", .xor [.sym "a", .sym "b"]), ("_ret", .not (.sym "__t"))]
-    (some ["_ret"]) true).run { choices := [2] } = .ok ((), s) := by
+    (some ["_ret"]) true).run { choices := [2, 3] } = .ok ((), s) := by
   have h : ((compile ["a", "b"] [("__t", .xor [.sym "a", .sym "b"]), ("_ret", .not (.sym "__t"))]
-      (some ["_ret"]) true).run { choices := [2] }).toBool = true := by decide +kernel
+      (some ["_ret"]) true).run { choices := [2, 3] }).toBool = true := by decide +kernel
   cases hrun : (compile ["a", "b"] [("__t", .xor [.sym "a", .sym "b"]), ("_ret", .not (.sym "__t"))]
-      (some ["_ret"]) true).run { choices := [2] } with
+      (some ["_ret"]) true).run { choices := [2, 3] } with
   | ok p => exact ⟨p.2, rfl⟩
   | error e => rw [hrun] at h; cases h
 
@@ -258,12 +275,15 @@ example : inputsFresh ["a", "b"] [("__t", .xor [.sym "a", .sym "b"]), ("_ret", .
 
 /-! ## Semantic fragment theorem (values on the qubits)
 
-`C02_statement` is false for the compiler as it is, but it holds on a decidable class of programs:
+`C02_statement` is not proved in general, but it holds on a decidable class of programs:
 a single definition `r = e` whose expression is built from the argument symbols with
 `Not` / `And` / `Or` / `Xor` of any arity (symbols may repeat) and in which no compound
 sub-expression occurs twice.  There every lookup in the expression cache misses, the free set is
 empty while `e` is compiled (every ancilla is a new qubit) and the inline `uncompute` after the
-statement only replays gates whose target is a marked ancilla, never the result qubit.
+statement only replays gates whose target is a marked ancilla, never the result qubit (the defined
+name is the requested return bit, or there is no final uncomputation, so the ancillas are released
+right after the statement; `Or` with more than two distinct argument qubits is the fold of binary ors
+into new marked ancillas, `orChain_sem`).
 Proofs: `QV/Proofs/CompilerSem.lean` (`exprSem` / `argsSem` / `xorSem` by mutual structural
 recursion, `compile_single_sem`). -/
 
@@ -351,13 +371,18 @@ example : ∃ s, (compile ["a", "b", "c"]
 Proofs: `QV/Proofs/CompilerSem2a…d.lean`, `QV/Proofs/CompilerSem2.lean`.  The invariants of `CompilerSem.lean`
 are generalised: the *scratch space* of a state is its free set together with the qubits not allocated yet,
 and every qubit of the scratch space is zero (`Pre2.zero`); constants and named intermediates are *known
-names* bound to qubits outside the free and the ancilla set (`Pre2.tbl`).  Between two definitions the inline
-`uncompute` replays, in reverse, the gates whose target is marked; `bennettF` shows that this gives the marked
-ancillas back as zeros, provided every control of every gate of the definition is marked itself or is a known
-name's qubit holding that name's value when the gate is applied – which `compile_expr` guarantees on the class
-`wfExp scope false` (no `Or` of three or more arguments with a symbol or constant among them: there De Morgan's
-`X` gates on the symbol's qubit are not replayed but the `MCX` between them is – the freed ancilla is then NOT
-zero, `#eval`-checked counterexamples in `docs/notes/C02_C03_C06.md`). -/
+names* bound to qubits outside the free and the ancilla set (`Pre2.tbl`); kept ancillas (`kept_ancillas`) are
+never in the free set (`Pre2.keptNF`).  Between two definitions the statement ends in one of two ways.  If the
+defined name is a requested return bit (or there is no final uncomputation) the inline `uncompute` replays, in
+reverse, the gates whose target is marked; `bennettF` shows that this gives the marked ancillas back as zeros,
+because every control of every gate of the definition is marked itself or is a known name's qubit holding that
+name's value when the gate is applied.  Otherwise `keep_ancillas` leaves every qubit and the free set alone.
+The or-chain of the repaired `compile_or` (`orChain_sem2`) writes only new marked ancillas and the destination,
+so the restriction the unrepaired compiler needed (no `Or` of three or more arguments with a symbol or constant
+among them: De Morgan's `X` gates on the symbol's qubit were not replayed, the freed ancilla was NOT zero,
+`docs/notes/C02_C03_C06.md`) is gone: `wfExpW` / `slDefsW` / `inFragmentNamedW` are `wfExp` / `slDefs` /
+`inFragmentNamed` without it.  With final uncomputation on, `uncompute_all` appends no gate whose target is the
+qubit of a requested return bit, so the values proved for the statement loop survive it. -/
 
 /-- **(a) constants.**  C02 on single definitions whose expression may contain `True` / `False` (anywhere
 except directly, or under one `Not`, as an argument of `Xor`), including `r = True` / `r = False`; final
@@ -376,45 +401,60 @@ theorem C02_fragment_consts (inputs : List String) (defs : List (String × BExp)
     intro x hx r' hr'
     have hr : r' = r := hrets r' hr'
     subst hr
-    obtain ⟨q, hq, hv⟩ := compile_const_sem h (fun _ => hr') hnd (fun n hn => hfr n hn) ⟨hr1, hr2⟩ hwf
-      (distinctB_iff.mp hdist) x hx
+    obtain ⟨q, hq, hv⟩ := compile_const_sem h (fun _ => hr') hnd (fun n hn => hfr n hn) ⟨hr1, hr2⟩
+      (wfExpW_of_wfExp e hwf) (distinctB_iff.mp hdist) x hx
     refine ⟨q, hq, ?_⟩
     rw [hv]
     simp [evalDefs, envOf]
 
-/-- **(c) named intermediates.**  C02 on straight-line definition lists (`m0 = e0; …; _ret = f(m0, args)`; every
-right-hand side reads arguments and earlier left-hand sides, any number of times; constants allowed as in (a);
-no cache key twice in the whole list; `Or` with three or more arguments only over compound arguments), final
-uncomputation off, every admissible sequence of ancilla choices – including the runs in which ancillas freed
-by the inline `uncompute` after one definition are re-used by later ones. -/
-theorem C02_fragment_named (inputs : List String) (defs : List (String × BExp)) (rets : List String)
-    (choices : List Nat) (s : CState)
-    (hf : inFragmentNamed inputs defs rets = true)
-    (h : (compile inputs defs (some rets) false).run { choices := choices } = .ok ((), s)) :
+/-- **(c) named intermediates, on the class of the repaired compiler.**  C02 on straight-line definition lists
+(`m0 = e0; …; _ret = f(m0, args)`; every right-hand side reads arguments and earlier left-hand sides, any number
+of times; constants allowed as in (a); no cache key twice in the whole list; `Or` / `And` / `Xor` of any arity
+over symbols, constants and compound expressions, `Or` / `Xor` not empty), final uncomputation **on or off**,
+every admissible sequence of ancilla choices – including the runs in which ancillas freed by the inline
+`uncompute` after one definition are re-used by later ones, and (uncomputation on) the runs in which the
+ancillas of a definition that is not a requested return bit are kept for the final `uncompute_all`. -/
+theorem C02_fragment_named_wide (inputs : List String) (defs : List (String × BExp)) (rets : List String)
+    (unc : Bool) (choices : List Nat) (s : CState)
+    (hf : inFragmentNamedW inputs defs rets = true)
+    (h : (compile inputs defs (some rets) unc).run { choices := choices } = .ok ((), s)) :
     Correct s.qc.gates.toList s.qc.numQubits s.qc.qmap inputs defs rets := by
-  simp only [inFragmentNamed, Bool.and_eq_true, decide_eq_true_eq, List.all_eq_true, Bool.not_eq_true',
+  simp only [inFragmentNamedW, Bool.and_eq_true, decide_eq_true_eq, List.all_eq_true, Bool.not_eq_true',
     List.any_eq_true, beq_iff_eq] at hf
   obtain ⟨⟨⟨⟨hnd, hfr⟩, hsl⟩, hdist⟩, hrets⟩ := hf
   intro x hx r hr
-  exact compile_named_sem h hnd hfr hsl (distinctB_iff.mp hdist) x hx r (hrets r hr)
+  exact compile_named_sem h hnd hfr hsl (distinctB_iff.mp hdist) x hx r (hrets r hr) (fun _ => hr)
+
+/-- **(c) named intermediates**, on the class `inFragmentNamed` the driver reports (every `Or` with one or two
+arguments or only compound ones – the restriction the unrepaired compiler needed; a sub-class of
+`C02_fragment_named_wide`), final uncomputation on or off. -/
+theorem C02_fragment_named (inputs : List String) (defs : List (String × BExp)) (rets : List String)
+    (unc : Bool) (choices : List Nat) (s : CState)
+    (hf : inFragmentNamed inputs defs rets = true)
+    (h : (compile inputs defs (some rets) unc).run { choices := choices } = .ok ((), s)) :
+    Correct s.qc.gates.toList s.qc.numQubits s.qc.qmap inputs defs rets :=
+  C02_fragment_named_wide inputs defs rets unc choices s (inFragmentNamedW_of_inFragmentNamed hf) h
 
 /-- **(b) several return bits.**  C02 on definition lists `_ret.0 = e0; _ret.1 = e1; …` in which every
-right-hand side is an independent tree over the arguments alone (a sub-class of (c)), final uncomputation off. -/
+right-hand side is an independent tree over the arguments alone (a sub-class of (c)), final uncomputation on
+or off. -/
 theorem C02_fragment_multi (inputs : List String) (defs : List (String × BExp)) (rets : List String)
-    (choices : List Nat) (s : CState)
+    (unc : Bool) (choices : List Nat) (s : CState)
     (hf : inFragmentMulti inputs defs rets = true)
-    (h : (compile inputs defs (some rets) false).run { choices := choices } = .ok ((), s)) :
+    (h : (compile inputs defs (some rets) unc).run { choices := choices } = .ok ((), s)) :
     Correct s.qc.gates.toList s.qc.numQubits s.qc.qmap inputs defs rets := by
   simp only [inFragmentMulti, Bool.and_eq_true] at hf
-  exact C02_fragment_named inputs defs rets choices s hf.1 h
+  exact C02_fragment_named inputs defs rets unc choices s hf.1 h
 
 /-- the step (b)/(c) rest on, in isolation: **"free ⇒ zero" is an invariant of the statement loop on the
-class** – if every qubit of the scratch space (free set and not yet allocated qubits) is zero before a
-straight-line definition list is compiled (invariant `Inv`), it is so afterwards -/
-theorem C02_free_zero_invariant (defs : List (String × BExp)) (scope : List String)
+class**, for every return list (`retBits = none`: the decompiler's call) and uncompute flag – if every qubit of
+the scratch space (free set and not yet allocated qubits) is zero before a straight-line definition list is
+compiled (invariant `Inv`), it is so afterwards -/
+theorem C02_free_zero_invariant (retBits : Option (List String)) (doUncompute : Bool)
+    (defs : List (String × BExp)) (scope : List String)
     (env : List (String × Bool)) (done : List BExp) (σ0 : FState) (s s' : CState)
-    (h : (compileDefs defs).run s = .ok ((), s')) (hinv : Inv scope (envOf env) σ0 done s)
-    (hsl : slDefs scope defs = true) (hd : distinctB (done ++ defs.flatMap (fun p => compKeys p.2)) = true) :
+    (h : (compileDefs retBits doUncompute defs).run s = .ok ((), s')) (hinv : Inv scope (envOf env) σ0 done s)
+    (hsl : slDefsW scope defs = true) (hd : distinctB (done ++ defs.flatMap (fun p => compKeys p.2)) = true) :
     ∀ q, q ∈ s'.qc.free → cur σ0 s' q = false := by
   obtain ⟨scope', done', hfin, _, _⟩ := defs_sem defs scope env done h hinv hsl (distinctB_iff.mp hd)
   exact fun q hq => hfin.pre.zero q (Or.inl hq)
@@ -438,11 +478,15 @@ example : inFragmentNamed ["a", "b", "c"]
     [("m0", .and [.sym "a", .sym "b"]), ("_ret", .xor [.sym "m0", .or [.sym "c", .not (.sym "m0")]])]
     ["_ret"] = true := by decide +kernel
 
-/-- not in classes (b)/(c): `Or` of three arguments with symbols among them, below an `And` – the ancilla of
-the `Or` is freed non-zero by the inline `uncompute` (De Morgan's `X` gates on `a`, `b` are not replayed) -/
+/-- not in the classes (b)/(c) the driver reports, but in the class of `C02_fragment_named_wide`: `Or` of three
+arguments with symbols among them, below an `And` (with the unrepaired compiler the ancilla of the `Or` was
+freed non-zero by the inline `uncompute`: De Morgan's `X` gates on `a`, `b` were not replayed) -/
 example : inFragmentNamed ["a", "b", "c", "d"]
     [("_ret.0", .and [.or [.sym "a", .sym "b", .sym "c"], .sym "d"]), ("_ret.1", .and [.sym "a", .sym "d"])]
-    ["_ret.0", "_ret.1"] = false := by decide +kernel
+    ["_ret.0", "_ret.1"] = false ∧
+  inFragmentNamedW ["a", "b", "c", "d"]
+    [("_ret.0", .and [.or [.sym "a", .sym "b", .sym "c"], .sym "d"]), ("_ret.1", .and [.sym "a", .sym "d"])]
+    ["_ret.0", "_ret.1"] = true := by decide +kernel
 
 /-- the same with a compound argument list is in the class -/
 example : inFragmentNamed ["a", "b", "c", "d"]
@@ -470,6 +514,20 @@ example : ∃ s, (compile ["a", "b", "c"]
   cases hrun : (compile ["a", "b", "c"]
       [("m0", .xor [.sym "a", .sym "b"]), ("_ret", .xor [.sym "m0", .not (.sym "c")])]
       (some ["_ret"]) false).run { choices := [3, 4] } with
+  | ok p => exact ⟨p.2, rfl⟩
+  | error e => rw [hrun] at h; cases h
+
+/-- the same program with final uncomputation on: `m0` is not a requested return bit, the ancillas in use after
+its statement are kept (`keep_ancillas`) for the final `uncompute_all` -/
+example : ∃ s, (compile ["a", "b", "c"]
+      [("m0", .xor [.sym "a", .sym "b"]), ("_ret", .xor [.sym "m0", .not (.sym "c")])]
+      (some ["_ret"]) true).run { choices := [3, 4] } = .ok ((), s) := by
+  have h : ((compile ["a", "b", "c"]
+      [("m0", .xor [.sym "a", .sym "b"]), ("_ret", .xor [.sym "m0", .not (.sym "c")])]
+      (some ["_ret"]) true).run { choices := [3, 4] }).toBool = true := by decide +kernel
+  cases hrun : (compile ["a", "b", "c"]
+      [("m0", .xor [.sym "a", .sym "b"]), ("_ret", .xor [.sym "m0", .not (.sym "c")])]
+      (some ["_ret"]) true).run { choices := [3, 4] } with
   | ok p => exact ⟨p.2, rfl⟩
   | error e => rw [hrun] at h; cases h
 
